@@ -157,6 +157,36 @@ void run_typed_sections() {
         });
         vf::require_outcomes("ret", 100);
     }
+    // ---------------------------------------------------------------- retscope: another scope is selected between actualCall and the question
+    {
+        static std::vector<c19_val> R = return_values();
+        static std::vector<Ask> Q = asks(false);
+        long nR = (long)R.size() + 1, nQ = (long)Q.size();
+        vf::info("retscope.bound", vf::fmt("as 'ret' for the %ld questions on the call handle (hasReturnValue, returnValue, 12 getters, 12 OrDefault getters x 2 defaults) x {no return value} + %ld return values, but a different scope is selected between actualCall and the question, 4 variants: call in the global scope and scope s selected by hasReturnValue while s has a last actual call WITH a return value (of another kind) / call in global and s selected by getData while s has no actual call; call in scope s and the global scope selected likewise with / without a pending return value. The C++ back end asks the MockActualCall object obtained from actualCall.", nQ, nR - 1));
+        vf::section_index("retscope", nR * nQ * 4, [&](long idx) {
+            vf::Radix r(idx);
+            int variant = (int)r.take(4); const Ask& q = Q[r.take(nQ)]; long ir = r.take(nR);
+            const char* S = "s";
+            const char* X = (variant & 2) ? S : nullptr;         // scope of the call under test
+            const char* Y = (variant & 2) ? nullptr : S;         // the other scope, selected in between
+            bool pending = variant & 1;
+            Program p;
+            if (pending) {
+                bool is_string = ir > 0 && R[ir - 1].kind == C19_STRING;
+                p.expect_one("g", Y); p.e_ret(is_string ? vint(77) : vstr(s_r));
+                p.actual("g", Y);
+            }
+            p.expect_one("f", X);
+            if (ir > 0) p.e_ret(R[ir - 1]);
+            p.actual("f", X);
+            if (pending) p.simple(C19_S_HAS, Y); else p.get_data("k", Y);
+            add_ask(p, q);
+            std::string oc = vf::fmt("%s/%s/%d/v%d", ir > 0 ? kind_name(R[ir - 1].kind) : "none", family(p.ops.back()), q.kind, variant);
+            p.usual_teardown();
+            differential(p, oc);
+        });
+        vf::require_outcomes("retscope", 100);
+    }
     // ---------------------------------------------------------------- outparam
     {
         vf::info("outparam.bound", "expectation side {no output parameter, withOutputParameterReturning of 0/1/3/16 bytes, withOutputParameterOfTypeReturning T, of type U, withUnmodifiedOutputParameter} x actual side {none, withOutputParameter, withOutputParameterOfType T, of type U} x parameter name same/different x {no copier, C copier for T, C copiers for T and U}; plus two output parameters passed in both orders; output slots are compared byte for byte");
